@@ -95,18 +95,26 @@ TrCopyObs ==
   /\ UNCHANGED vars
 
 \* The directory as it was at a file-mutation point (possibly with a torn
-\* last write, or after power loss) inside the call sequence `Ev.calls`
-\* recorded ahead of it, opened by the real Open: recovery succeeds and
-\* serves the transactions that had returned, plus possibly the in-flight
-\* one in full (C10, C11, C16).  Ev.done = number of transactions of this
-\* history that had returned; the in-flight one is described by Ev.recs.
+\* last write, or after power loss) of the call that follows in the trace,
+\* opened by the real Open in a child process: recovery succeeds and serves
+\* the transactions that had returned, plus possibly the in-flight one in
+\* full (C10, C11, C16).  The in-flight transaction is the one open in the
+\* model at this point (the crash happened inside its Commit call).
+CrashServes(lg) == ObsMatches(ObsOf(Ev.o), Replay(lg), Ev.t0, Ev.t1)
+F_MergeCrash == "F-C16-1"
 TrCrash ==
   /\ Is({"crash"})
-  /\ ~Ev.err
-  /\ \/ ObsMatches(ObsOf(Ev.o), Replay(log), Ev.t0, Ev.t1)
-     \/ /\ Ev.inflight
-        /\ ObsMatches(ObsOf(Ev.o), Replay(log \o Stamp(tx.id, tx.recs)), Ev.t0, Ev.t1)
-  /\ UNCHANGED vars
+  /\ \/ /\ ~Ev.err
+        /\ \/ CrashServes(log)
+           \/ tx.st = "rw" /\ CrashServes(log \o Stamp(tx.id, tx.recs))
+        /\ UNCHANGED vars
+     \* known finding: a crash inside Merge on a database with list or
+     \* sorted-set records (or with sets that SMove changed in memory only)
+     \/ /\ F_MergeCrash \in Dev /\ Ev.during = "merge" /\ tx.st = "none"
+        /\ HasRecs("ls") \/ HasRecs("zs") \/ (F_SMove \in Dev /\ ObsSt(mem) # ObsSt(Replay(log)))
+        /\ Ev.err \/ ~CrashServes(log)
+        /\ notes' = notes \cup {F_MergeCrash}
+        /\ UNCHANGED <<status, mem, log, tx>>
 
 TraceNext ==
   /\ \/ TrReset \/ TrBegin \/ TrRead \/ TrMutate \/ TrFinished \/ TrCommit \/ TrRollback
